@@ -114,6 +114,30 @@ def generate(g, tier):
                  dict(op='compile', compiler='K', opts=o, dir='s2', src=dict(text=t)),
                  dict(op='compile_file', compiler='K', opts=o, dir='s3', file='other/main.txt', files={'other/main.txt': t})]
         cases.append(dict(op='history', steps=steps, meta=dict(family='entry-history', nocorr=True)))
+    # one compilation, one set of options: a config.yaml lying in the folder of an IMPORTED file (or in any folder other than the
+    # entry file's) is not consulted — whatever it says, however the import is reached
+    for _ in range(count(tier, 80, 600)):
+        glob = {k: r.choice([True, False]) for k in OPTKEYS}
+        glob['stack_limit'] = 20
+        entry_cfg = r.choice([None, None, {k: r.choice([True, False]) for k in OPTKEYS if k != 'use_project_config'}])
+        decoy = {k: r.choice([True, False]) for k in OPTKEYS}
+        decoy['stack_limit'] = r.choice([3, 20, 200])
+        eff, _used = effective(glob, entry_cfg)
+        kw = r.choice(['START', 'STARTENV', 'STARTCODE'])
+        libdir = r.choice(['proj/lib', 'proj/lib/deep', 'other'])
+        helper = 'REM from helper\nALTCODE 65\nFOO x\nIF TRUE\n    REM inner\n    STRING h'
+        where = r.choice(['top', 'block', 'func'])
+        imp = f'{kw} {import_name("proj/main.txt", libdir + "/helper.txt")}'
+        main = {'top': imp, 'block': 'IF TRUE\n    ' + imp, 'func': 'FUNC ld\n    ' + imp + '\nRUN ld'}[where] + '\nREM after\nSTRING end'
+        files = {'proj/main.txt': main, libdir + '/helper.txt': helper}
+        cfgs = {libdir: decoy}
+        if entry_cfg is not None: cfgs['proj'] = entry_cfg
+        C = eff['include_comments']
+        lib_out = ([] if kw == 'STARTENV' else (['REM from helper'] if C else []) + ['ALTCODE 65', 'FOO x'] + (['REM inner'] if C else []) + ['STRING h'])
+        if not eff['flipper_commands']: exp = ['err', 'flipper']
+        else: exp = ['ok', lib_out + (['REM after'] if C else []) + ['STRING end'], [], None]
+        cases.append(dict(op='compile_file', opts=glob, file='proj/main.txt', files=files, cfgs=cfgs,
+                          meta=dict(family='foreign-config', exp=exp, nwarn=(0 if eff['supress_command_not_exist'] or not eff['flipper_commands'] else 1))))
     # options follow what the caller and the project file say NOW: the same Compiler object and the same folder, with the
     # options reassigned or config.yaml added / edited between two compilations
     from . import C17
@@ -130,6 +154,10 @@ def oracle(cases, results):
             got = sorted({w['arg'] for w in r['warns'] if w['kind'] == 'notExist'})
             if got != m['unknown_lines']:
                 fs.append(fail(i, f'unknown-command warnings: expected for lines {m["unknown_lines"]} got {got} (options {c.get("opts")})', f'{m["family"]}:warnings'))
+        if 'nwarn' in m and r.get('kind') == 'ok':
+            nw = len({json.dumps(w.get('trace')) for w in r['warns'] if w['kind'] == 'notExist'})
+            if nw != m['nwarn']:
+                fs.append(fail(i, f'{m["family"]}: {nw} unknown-command warnings, expected {m["nwarn"]} (options {c.get("opts")})', f'{m["family"]}:warnings'))
         if m.get('exp', [None])[0] == 'err' and r.get('kind') == 'cerr' and r.get('cls') != 'InvalidCommand':
             fs.append(fail(i, f'Flipper-only command with Flipper disabled should fail with InvalidCommand, got {r.get("cls")}', f'{m["family"]}:flipper-class'))
         if m.get('family') == 'project' and r.get('kind') in ('ok', 'cerr') and 'cfgNow' in r:
